@@ -3,7 +3,9 @@ package main
 import (
 	"fmt"
 	"go/ast"
+	"go/token"
 	"go/types"
+	"sort"
 	"strings"
 
 	"golang.org/x/tools/go/packages"
@@ -282,4 +284,165 @@ func c15Unmarked(c *Ctx) {
 	}
 	c.Floor("unmarked sites", len(sites), 45, "≈ 60 call sites of marked-panicking cty methods in hcl, hclsyntax, json, hcldec, dynblock")
 }
-func c15Determinism(c *Ctx) {}
+func c15Determinism(c *Ctx) {
+	var roots []*ssa.Function
+	for _, a := range [][2]string{{"hclsyntax", "ParseConfig"}, {"hclsyntax", "ParseExpression"}, {"hclsyntax", "ParseTemplate"}, {"hclsyntax", "ParseTraversalAbs"}, {"hclsyntax", "ParseTraversalPartial"},
+		{"json", "Parse"}, {"json", "ParseExpression"}, {"json", "ParseWithStartPos"}, {"json", "ParseExpressionWithStartPos"}, {"hclwrite", "ParseConfig"}, {"hclwrite", "Format"}} {
+		f := c.P.LookupFunc(a[0], a[1])
+		if f == nil {
+			c.CheckerFail("determinism", "anchor "+a[0]+"."+a[1]+" does not resolve")
+			continue
+		}
+		roots = append(roots, f)
+	}
+	c.Rule("R5 determinism: in the parser/scanner/loader/formatter functions reachable from the parsing entry points: no call into time or math/rand, no read of a package variable that any non-init function writes, and every range over a map whose body appends or calls out is followed (dominated by the loop exit) by a sort of the result")
+	reach := c.P.ReachableFrom(roots, inModule)
+	inScopeFile := func(file string) bool {
+		for _, pre := range []string{"hclsyntax/parser", "hclsyntax/peeker.go", "hclsyntax/token.go", "hclsyntax/scan_", "hclsyntax/public.go", "hclsyntax/keywords.go",
+			"json/parser.go", "json/scanner.go", "json/peeker.go", "json/public.go", "hclwrite/parser.go", "hclwrite/format.go", "hclwrite/public.go", "hclwrite/tokens.go", "hclwrite/node.go", "hclwrite/ast", "hclwrite/native_node_sorter.go"} {
+			if strings.HasPrefix(file, pre) {
+				return true
+			}
+		}
+		return false
+	}
+	// package variables written outside init
+	mutable := map[*ssa.Global]token.Pos{}
+	for _, fn := range c.P.pkgFuncs() {
+		top := fn
+		for top.Parent() != nil {
+			top = top.Parent()
+		}
+		if top.Name() == "init" || strings.HasPrefix(top.Name(), "init#") {
+			continue // package initialisation runs once, before any parse
+		}
+		for _, b := range fn.Blocks {
+			for _, ins := range b.Instrs {
+				if st, ok := ins.(*ssa.Store); ok {
+					if g, ok := rootGlobal(st.Addr); ok {
+						mutable[g] = st.Pos()
+					}
+				}
+			}
+		}
+	}
+	var fns []*ssa.Function
+	for fn := range reach {
+		if inScopeFile(c.P.Position(fn.Pos())) {
+			fns = append(fns, fn)
+		}
+	}
+	sort.Slice(fns, func(i, j int) bool { return FuncName(fns[i]) < FuncName(fns[j]) })
+	nMapRanges := 0
+	for _, fn := range fns {
+		name := FuncName(fn)
+		c.Fn(name)
+		bad := false
+		for _, b := range fn.Blocks {
+			for _, ins := range b.Instrs {
+				switch x := ins.(type) {
+				case *ssa.Call:
+					if cal := x.Call.StaticCallee(); cal != nil {
+						if pk := fnPkg(cal); pk != nil && (pk.Path() == "time" || strings.HasPrefix(pk.Path(), "math/rand")) {
+							c.Fail("determinism.source", name+":call["+pk.Name()+"."+cal.Name()+"]", x.Pos(), "parsing path calls "+pk.Path()+"."+cal.Name()+": result may differ between calls")
+							bad = true
+						}
+					}
+				case *ssa.UnOp:
+					if x.Op == token.MUL {
+						if g, ok := rootGlobal(x.X); ok {
+							if wpos, isMut := mutable[g]; isMut && strings.HasPrefix(g.Pkg.Pkg.Path(), modPath) {
+								c.Fail("determinism.source", name+":global["+g.Name()+"]", x.Pos(), "parsing path reads package variable "+g.Name()+" which is written at "+c.P.Position(wpos))
+								bad = true
+							}
+						}
+					}
+				case *ssa.Range:
+					if _, isMap := x.X.Type().Underlying().(*types.Map); !isMap {
+						continue
+					}
+					nMapRanges++
+					key := name + ":maprange"
+					sensitive, sorted := mapRangeOrderSensitive(x)
+					switch {
+					case !sensitive:
+						c.OK("determinism.maprange", key, x.Pos(), "loop body neither appends nor calls out: order-independent")
+					case sorted:
+						c.OK("determinism.maprange", key, x.Pos(), "result is sorted after the loop")
+					default:
+						c.Fail("determinism.maprange", key, x.Pos(), "range over a map appends/calls in iteration order and no sort follows the loop: result order differs between calls")
+					}
+				}
+			}
+		}
+		if !bad {
+			c.OK("determinism.source", name, fn.Pos(), "no time/rand call, no read of a mutable package variable")
+		}
+	}
+	c.Floor("determinism functions", len(fns), 60, "parser, scanner, loader and formatter functions")
+	c.Floor("determinism map ranges", nMapRanges, 2, "hclwrite.parseBody, nodeSet.Clear")
+}
+
+func rootGlobal(v ssa.Value) (*ssa.Global, bool) {
+	for {
+		switch x := v.(type) {
+		case *ssa.Global:
+			return x, true
+		case *ssa.FieldAddr:
+			v = x.X
+		case *ssa.IndexAddr:
+			v = x.X
+		default:
+			return nil, false
+		}
+	}
+}
+
+// mapRangeOrderSensitive: the loop body (blocks dominated by the block holding
+// the Next instruction's body edge) contains an append or a non-builtin call;
+// sorted: a call into package sort / slices.Sort* exists in a block dominated by
+// the loop's exit.
+func mapRangeOrderSensitive(r *ssa.Range) (sensitive, sorted bool) {
+	fn := r.Parent()
+	// find the loop header: block containing Next(r)
+	var header *ssa.BasicBlock
+	for _, ref := range *r.Referrers() {
+		if nx, ok := ref.(*ssa.Next); ok {
+			header = nx.Block()
+		}
+	}
+	if header == nil || len(header.Succs) != 2 {
+		return true, false
+	}
+	body, exit := header.Succs[0], header.Succs[1]
+	for _, b := range fn.Blocks {
+		if b.Dominates(header) && b != header {
+			continue
+		}
+		inBody := body.Dominates(b)
+		afterLoop := exit.Dominates(b)
+		for _, ins := range b.Instrs {
+			call, ok := ins.(*ssa.Call)
+			if !ok {
+				continue
+			}
+			if inBody {
+				if bi, ok := call.Call.Value.(*ssa.Builtin); ok {
+					if bi.Name() == "append" {
+						sensitive = true
+					}
+					continue
+				}
+				sensitive = true
+			}
+			if afterLoop {
+				if cal := call.Call.StaticCallee(); cal != nil {
+					if pk := fnPkg(cal); pk != nil && (pk.Path() == "sort" || (pk.Path() == "slices" && strings.HasPrefix(cal.Name(), "Sort"))) {
+						sorted = true
+					}
+				}
+			}
+		}
+	}
+	return
+}
